@@ -22,6 +22,8 @@ struct Shape {
     n_ix: usize,
     payer: usize,
     extra_signer: bool,
+    /// the instructions name the extra signer's account as a plain (non-signer) account
+    mention_extra: bool,
     data_len: usize,
 }
 
@@ -35,15 +37,18 @@ fn key(label: &str) -> Pubkey {
 
 fn shapes() -> Vec<Shape> {
     vec![
-        Shape { parallel: 1, mergeable: true, pg_mergeable: true, n_ix: 1, payer: 0, extra_signer: false, data_len: 8 },
-        Shape { parallel: 1, mergeable: true, pg_mergeable: true, n_ix: 2, payer: 0, extra_signer: true, data_len: 40 },
-        Shape { parallel: 1, mergeable: false, pg_mergeable: true, n_ix: 1, payer: 0, extra_signer: false, data_len: 8 },
-        Shape { parallel: 1, mergeable: true, pg_mergeable: true, n_ix: 1, payer: 1, extra_signer: false, data_len: 8 },
-        Shape { parallel: 2, mergeable: true, pg_mergeable: true, n_ix: 1, payer: 0, extra_signer: false, data_len: 8 },
-        Shape { parallel: 2, mergeable: true, pg_mergeable: false, n_ix: 2, payer: 0, extra_signer: false, data_len: 8 },
-        Shape { parallel: 1, mergeable: true, pg_mergeable: false, n_ix: 3, payer: 1, extra_signer: true, data_len: 200 },
-        Shape { parallel: 1, mergeable: true, pg_mergeable: true, n_ix: 1, payer: 0, extra_signer: false, data_len: 600 },
-        Shape { parallel: 3, mergeable: true, pg_mergeable: true, n_ix: 1, payer: 1, extra_signer: false, data_len: 16 },
+        Shape { parallel: 1, mergeable: true, pg_mergeable: true, n_ix: 1, payer: 0, extra_signer: false, mention_extra: false, data_len: 8 },
+        Shape { parallel: 1, mergeable: true, pg_mergeable: true, n_ix: 2, payer: 0, extra_signer: true, mention_extra: false, data_len: 40 },
+        Shape { parallel: 1, mergeable: false, pg_mergeable: true, n_ix: 1, payer: 0, extra_signer: false, mention_extra: false, data_len: 8 },
+        Shape { parallel: 1, mergeable: true, pg_mergeable: true, n_ix: 1, payer: 1, extra_signer: false, mention_extra: false, data_len: 8 },
+        Shape { parallel: 2, mergeable: true, pg_mergeable: true, n_ix: 1, payer: 0, extra_signer: false, mention_extra: false, data_len: 8 },
+        Shape { parallel: 2, mergeable: true, pg_mergeable: false, n_ix: 2, payer: 0, extra_signer: false, mention_extra: false, data_len: 8 },
+        Shape { parallel: 1, mergeable: true, pg_mergeable: false, n_ix: 3, payer: 1, extra_signer: true, mention_extra: false, data_len: 200 },
+        Shape { parallel: 1, mergeable: true, pg_mergeable: true, n_ix: 1, payer: 0, extra_signer: false, mention_extra: false, data_len: 600 },
+        Shape { parallel: 3, mergeable: true, pg_mergeable: true, n_ix: 1, payer: 1, extra_signer: false, mention_extra: false, data_len: 16 },
+        // an account first seen as a plain account and later (after a merge) as a signer
+        Shape { parallel: 1, mergeable: true, pg_mergeable: true, n_ix: 1, payer: 0, extra_signer: false, mention_extra: true, data_len: 8 },
+        Shape { parallel: 1, mergeable: true, pg_mergeable: true, n_ix: 1, payer: 0, extra_signer: true, mention_extra: false, data_len: 700 },
     ]
 }
 
@@ -90,6 +95,9 @@ fn check_seq(c: &Ctx, shapes: &[Shape], seq: &[usize], max_ix: usize, max_size: 
                 let mut metas = vec![AccountMeta::new(c.payers[sh.payer], true), AccountMeta::new(c.accts[k % 6], false), AccountMeta::new_readonly(c.accts[(k + 1) % 6], false)];
                 if sh.extra_signer {
                     metas.push(AccountMeta::new_readonly(c.extra, true));
+                }
+                if sh.mention_extra {
+                    metas.push(AccountMeta::new_readonly(c.extra, false));
                 }
                 ixs.push(Instruction { program_id: c.prog, accounts: metas, data });
                 expected.push((gid, label));
